@@ -47,7 +47,14 @@ def main(argv):
         return 2
     cfg = props[prop]
     try:
-        return cfg["run"](prop, cfg, tier, get_seed())
+        rc = cfg["run"](prop, cfg, tier, get_seed())
+        if rc == 0 and not os.environ.get("PV_KEEP_WORK"):
+            # scratch (case files, result files, emitted grammars: gigabytes at the thorough tier): not needed after a
+            # clean run; after a violation it is kept (the replay files are self-contained, this is for debugging)
+            import glob, shutil
+            for d in glob.glob(os.path.join(core.BUILD, "work", prop)) + glob.glob(os.path.join(core.BUILD, "work", prop + "_*")):
+                shutil.rmtree(d, ignore_errors=True)
+        return rc
     except core.BuildError as e:
         # the tree does not build: nothing about the property is shown
         p = core.write_replay(prop, "build_failure", {"property": prop, "kind": "build", "error": str(e)})
